@@ -16,6 +16,7 @@ Create HintDb quietdb.
 Create HintDb presddb.
 Create HintDb presfdb.
 Create HintDb presodb.
+Create HintDb presedb.
 
 Fixpoint nfork (o : list effect) : nat :=
   match o with [] => O | EFork _ _ :: r => S (nfork r) | _ :: r => nfork r end.
@@ -250,6 +251,123 @@ Proof. unfold Model.phase2. qtac. Qed.
 Lemma qM_loop_head : quiet obsM (Model.loop_head U pconfs gconfs).
 Proof. unfold Model.loop_head. qtac. Qed.
 Hint Resolve qM_poll_pending qM_defer_now qM_child_dies qM_phase2 qM_loop_head : quietdb.
+
+
+(* ---------- the loop ends only through a shutdown or restart request *)
+Definition obsE (w : world) : bool * Z := (exited w, mood w).
+Definition SE (w : world) : Prop := exited w = true -> mood w < 1.
+
+Lemma qE_spawn i : quiet obsE (Model.spawn U pconfs i).
+Proof. unfold Model.spawn. qtac. Qed.
+Lemma qE_rollback i t : quiet obsE (Model.rollback_adjust U pconfs i t).
+Proof. unfold Model.rollback_adjust. qtac. Qed.
+Lemma qE_give_up i : quiet obsE (Model.give_up U i).
+Proof. unfold Model.give_up. qtac. Qed.
+Lemma qE_kill i sig : quiet obsE (Model.kill U pconfs i sig).
+Proof. unfold Model.kill. qtac. Qed.
+Hint Resolve qE_spawn qE_rollback qE_give_up qE_kill : quietdb.
+Lemma qE_stop i : quiet obsE (Model.stop U pconfs i).
+Proof. unfold Model.stop. qtac. Qed.
+Lemma qE_signal i sig : quiet obsE (Model.signal U i sig).
+Proof. unfold Model.signal. qtac. Qed.
+Lemma qE_finish i s : quiet obsE (Model.finish U pconfs i s).
+Proof. unfold Model.finish. qtac. Qed.
+Hint Resolve qE_stop qE_signal qE_finish : quietdb.
+Lemma qE_transition i : quiet obsE (Model.transition U pconfs i).
+Proof. unfold Model.transition. qtac. Qed.
+Lemma qE_reap fuel : quiet obsE (Model.reap U pconfs fuel).
+Proof. induction fuel as [|f IH]; cbn; qtac. Qed.
+Hint Resolve qE_transition qE_reap : quietdb.
+Lemma qE_stop_all g : quiet obsE (Model.stop_all U pconfs gconfs g).
+Proof. unfold Model.stop_all. qtac. Qed.
+Lemma qE_start_process i wait : quiet obsE (Model.start_process U pconfs i wait).
+Proof. unfold Model.start_process, reap_all. qtac. Qed.
+Lemma qE_stop_process i wait : quiet obsE (Model.stop_process U pconfs i wait).
+Proof. unfold Model.stop_process, reap_all. qtac. Qed.
+Lemma qE_start_onwait i : quiet obsE (start_onwait i).
+Proof. unfold start_onwait. qtac. Qed.
+Lemma qE_stop_onwait i : quiet obsE (Model.stop_onwait U pconfs i).
+Proof. unfold Model.stop_onwait. qtac. Qed.
+Lemma qE_signal_process i sig ok : quiet obsE (Model.signal_process U pconfs i sig ok).
+Proof. unfold Model.signal_process. qtac. Qed.
+Hint Resolve qE_stop_all qE_start_process qE_stop_process qE_start_onwait qE_stop_onwait qE_signal_process : quietdb.
+Lemma qE_call_one k wait i : quiet obsE (Model.call_one U pconfs k wait i).
+Proof. destruct k; cbn; qtac. Qed.
+Lemma qE_poll_one k i : quiet obsE (Model.poll_one U pconfs k i).
+Proof. destruct k; cbn; qtac. Qed.
+Hint Resolve qE_call_one qE_poll_one : quietdb.
+Lemma qE_all_first k wait l : forall cbs res, quiet obsE (Model.all_first U pconfs k wait l cbs res).
+Proof. induction l as [|x l IH]; intros; cbn; qtac. Qed.
+Lemma qE_all_poll k l : forall cbs res, quiet obsE (Model.all_poll U pconfs k l cbs res).
+Proof. induction l as [|x l IH]; intros; cbn; qtac. Qed.
+Hint Resolve qE_all_first qE_all_poll : quietdb.
+Lemma qE_poll_deferred d : quiet obsE (Model.poll_deferred U pconfs d).
+Proof. destruct d; cbn; qtac. Qed.
+Hint Resolve qE_poll_deferred : quietdb.
+Lemma qE_poll_pending l : forall keep, quiet obsE (Model.poll_pending U pconfs l keep).
+Proof. induction l as [|x l IH]; intros; cbn; qtac. Qed.
+Lemma qE_defer_now d : quiet obsE (Model.defer_now U pconfs d).
+Proof. unfold Model.defer_now, add_pending. qtac. Qed.
+Lemma qE_child_dies k s : quiet obsE (child_dies k s).
+Proof. unfold child_dies. qtac. Qed.
+Lemma qE_phase2 : quiet obsE (Model.phase2 gconfs).
+Proof. unfold Model.phase2. qtac. Qed.
+Hint Resolve qE_poll_pending qE_defer_now qE_child_dies qE_phase2 : quietdb.
+
+
+Lemma SE_obs w w' : obsE w' = obsE w -> SE w -> SE w'.
+Proof. unfold obsE, SE. intros E H. inversion E as [[E1 E2]]. rewrite E1, E2. exact H. Qed.
+
+Ltac etac :=
+  repeat match goal with
+    | |- presG _ (ret _) => apply presG_ret
+    | |- presG _ _ => solve [apply (quiet_presG SE obsE _ SE_obs); qtac]
+    | |- presG _ _ => solve [eauto with presedb]
+    | |- presG _ (mapM_ _ _) => apply presG_mapM; intros
+    | |- presG _ (bind getw _) => apply presG_getw; intros ?w0 ?Hm
+    | |- presG _ (bind (gets _) _) => apply presG_gets; intros ?s
+    | |- presG _ (bind (getp _) _) => apply presG_getp; intros ?p
+    | |- presG _ (modw (set_mood _)) => let w := fresh in let H := fresh in intros w H; unfold SE in *; cbn; intros; lia
+    | |- presG _ (if ?c then _ else _) => destruct c
+    | |- presG _ (match ?x with _ => _ end) => destruct x
+    | |- presG _ (bind _ _) => apply presG_bind; [ | intros ? ]
+    end.
+
+Lemma pE_handle_signal : presG SE handle_signal.
+Proof. unfold handle_signal. etac. Qed.
+Lemma pE_do_rpc req r : presG SE (Model.do_rpc U pconfs gconfs req r).
+Proof. unfold Model.do_rpc. destruct r; etac. Qed.
+Hint Resolve pE_handle_signal pE_do_rpc : presedb.
+Lemma pE_do_act a : presG SE (Model.do_act U pconfs gconfs a).
+Proof. destruct a; cbn; etac. Qed.
+Hint Resolve pE_do_act : presedb.
+
+Lemma pE_loop_head : presG SE (Model.loop_head U pconfs gconfs).
+Proof.
+  unfold Model.loop_head. apply presG_getw_at. intros w H.
+  destruct (mood w <? 1) eqn:Em; [|exact H].
+  assert (Hlow : forall w1, obsE w1 = obsE w -> mood w1 < 1) by (intros w1 E; inversion E as [[E1 E2]]; lia).
+  (* everything in this branch keeps the mood; the mood read is below RUNNING *)
+  assert (Hq : quiet obsM (Model.loop_head U pconfs gconfs)) by apply qM_loop_head.
+  unfold SE. intros _.
+  match goal with |- mood (snd (?m w)) < 1 =>
+    assert (Em2 : mood (snd (m w)) = mood w) end.
+  { pose proof (Hq w) as Hq'. unfold obsM, Model.loop_head in Hq'. unfold bind at 1 in Hq'. unfold getw at 1 in Hq'.
+    rewrite Em in Hq'. exact Hq'. }
+  rewrite Em2. lia.
+Qed.
+Hint Resolve pE_loop_head : presedb.
+
+Lemma pE_do_pass o : presG SE (Model.do_pass U pconfs gconfs o).
+Proof. unfold Model.do_pass, transition_group, reap_all. etac. Qed.
+
+Theorem exit_only_on_request ops :
+  let w := Model.run U pconfs gconfs ops in exited w = true -> mood w < 1.
+Proof.
+  cbv zeta. unfold Model.run. assert (H0 : SE world0) by (intros H; discriminate H). revert H0. generalize world0.
+  induction ops as [|o ops IH]; intros w H; cbn; [exact H|].
+  apply IH. unfold Model.step. destruct (crashed w || exited w); [exact H | apply pE_do_pass; exact H].
+Qed.
 
 Lemma SF_obs w w' : obsM w' = obsM w -> SF w -> SF w'.
 Proof. unfold obsM, SF. congruence. Qed.
